@@ -305,7 +305,7 @@ func C01(c *core.Ctx) {
 
 	// ---- processIncomingData
 	pkt := ssa.Value(pid.Params[1])
-	sl = &core.Slicer{P: p, Root: pid} // from here on the slices are about processIncomingData's body
+	sl = &core.Slicer{P: p, Root: pid}    // from here on the slices are about processIncomingData's body
 	isMatched := func(v ssa.Value) bool { // an element of FindInterestPrefixMatchByDataEnc's result
 		ls := sl.Leaves(v)
 		if len(ls) == 0 {
